@@ -491,10 +491,10 @@ func Check() *engine.Check {
 		ID:    "C03",
 		Level: "exploration",
 		Rule: "(conditions) full product of scheme {unset,http,https} x 12 method lists (unset, lists, ALL, ALL with exclusions, exclusions before ALL or before the method) x every host " +
-			"list of length 0-2 over {exact h1, exact h2, glob *.ex.com, regex, glob v*} x requests (3 methods x 2 schemes x 7 hosts); (routes) 7 route " +
-			"shapes (single, two singles, free, single+free, shared-prefix pair forcing descent-and-return, unnamed single, unnamed free) x " +
+			"list of length 0-2 over {exact h1, exact h2, glob *.ex.com, regex, glob v*} x requests (3 methods x 2 schemes x 7 hosts); (routes) 9 route " +
+			"shapes (single, two singles, free, single+free, shared-prefix pair forcing descent-and-return, unnamed single, unnamed free, unnamed before named) x " +
 			"path_params (none; exact/glob/regex on every named wildcard incl. the free one, matching and not) x 3 encoded-slash settings x request " +
-			"paths built from segments {v, v%20w, %5Bid%5D, a%2Fb, a%2fb, foo, bar, v.w, v%2Fw, a.ex.com, r%2541, 100%25}; (combined) 4 (thorough: 30) condition sets, " +
+			"paths built from segments {v, v%20w, %5Bid%5D, a%2Fb, a%2fb, foo, bar, v.w, v%2Fw, a.ex.com, r%2541, 100%25, %61bc, %34%32}; (combined) 4 (thorough: 30) condition sets, " +
 			"among them host globs with the same text as path_params globs (separator '.' vs '/'), x all route shapes x path_params x settings x 4 " +
 			"request (method, scheme, host) triples x all paths; executed through the real decision service (real request parsing, " +
 			"rule factory, radix tree, matchers, rule execution, header finalizer echoing Request.URL.Captures); oracle: reference matcher + decoded-capture model.",
@@ -559,16 +559,22 @@ var shapes = []routeShapeDef{
 	{[]string{"/:x/foo/bar", "/:x/:y"}, []string{"x", "y"}},
 	{[]string{"/f/:*"}, nil},
 	{[]string{"/f/**"}, nil},
+	// unnamed wildcards in front of named ones: only the named ones are exposed, each with its own segment
+	{[]string{"/:*/foo/:y"}, []string{"y"}},
+	{[]string{"/:*/:x/*r"}, []string{"x", "r"}},
 }
 
 var paramMenu = []struct{ typ, val string }{
 	{"exact", "v"}, {"exact", "v w"}, {"glob", "v*"}, {"regex", `^\[id\]$`}, {"regex", "^a.*b$"}, {"regex", "^nomatch$"},
 	{"glob", "v?w"}, {"glob", "*.ex.com"}, {"exact", "r%41"}, {"exact", "100%"},
+	{"exact", "abc"}, {"regex", "^[0-9]{2}$"},
 }
 
 func reqPaths() []string {
 	// r%2541 / 100%25: an encoded percent sign, decoded exactly once (r%41, 100%)
-	segs := []string{"v", "v%20w", "%5Bid%5D", "a%2Fb", "a%2fb", "foo", "bar", "v.w", "v%2Fw", "a.ex.com", "r%2541", "100%25"}
+	segs := []string{"v", "v%20w", "%5Bid%5D", "a%2Fb", "a%2fb", "foo", "bar", "v.w", "v%2Fw", "a.ex.com", "r%2541", "100%25",
+		// percent-encoded unreserved characters: %61bc is abc, %34%32 is 42
+		"%61bc", "%34%32"}
 
 	var out []string
 
